@@ -83,10 +83,20 @@ func VerifHarness_C12_frame() {
 	}
 	altered.AddTransaction(vkTx(66, []int{5}, true)) // same header, different body
 	var msg wire.Message
-	kind := verifrt.Choose("untrusted.message", 11)
-	names := []string{"headers-linked", "headers-unknown", "headers-empty", "inv", "tx", "block-requested-authentic", "block-requested-altered-body", "block-unrequested", "block-requested-next-altered", "extmsg-tx", "extmsg-block-altered-body"}
+	kind := verifrt.Choose("untrusted.message", 12)
+	names := []string{"headers-linked", "headers-unknown", "headers-empty", "inv", "tx", "block-requested-authentic", "block-requested-altered-body", "block-unrequested", "block-requested-next-altered", "extmsg-tx", "extmsg-block-altered-body", "tx-spending-unknown-outputs"}
 	relevantTx := vkTx(67, []int{4}, true)
 	switch kind {
+	case 11:
+		// a transaction that pays a subscribed address and spends an output nobody knows: the full
+		// node behind the output fetcher answers with an error
+		k.fetcher.strict = true
+		bogus := wire.NewMsgTx(1)
+		var nowhere bitcoin.Hash32
+		nowhere[0] = 0x77
+		bogus.AddTxIn(wire.NewTxIn(wire.NewOutPoint(&nowhere, 0), bitcoin.Script{0x01, 0x01}))
+		bogus.AddTxOut(wire.NewTxOut(1, vkRelevantScript()))
+		msg = bogus
 	case 0:
 		msg = tree.headerMsg("a1", "a2")
 	case 1:
@@ -135,7 +145,16 @@ func VerifHarness_C12_frame() {
 	verifrt.Sig(names[kind], "panic")
 	verifrt.Assert(!panicked, "C12.untrusted.no-panic")
 	derr := vkDrainTxs(ctx, k)
-	verifrt.Assert(derr == nil, "C12.untrusted.processing-no-error")
+	verifrt.Sig(names[kind], "processing")
+	verifrt.Assert(derr == nil, "C12.untrusted.processing-no-error") // an error there stops the whole node
+	if kind == 11 {
+		// nothing was delivered, so nothing may be left recorded as delivered
+		unconf, _ := k.node.txs.GetUnconfirmed(ctx)
+		k.node.txs.ReleaseUnconfirmed(ctx)
+		verifrt.Sig(names[kind], "half-recorded")
+		verifrt.Assert(len(unconf) == 0 || len(k.rec.events) > mark, "C12.untrusted.undeliverable-tx-is-not-left-half-recorded")
+		verifrt.Reach("C12.frame.unknown-outputs")
+	}
 	after := c12Take(k)
 	verifrt.Sig(names[kind], "frame")
 	verifrt.Assert(c12Same(before, after), "C12.frame.trusted-chain-state-untouched")
@@ -307,4 +326,61 @@ func c07DelayCheckC12(ctx context.Context, node *Node) {
 	node.lock.Lock()
 	node.stopping = false
 	node.lock.Unlock()
+}
+
+// VerifHarness_C12_insync: the node is in sync when the trusted peer announces a new block; while
+// that block's request is outstanding an untrusted peer (verified or not) sends a body with the
+// requested header and other transactions - before the trusted body (and is processed before it
+// arrives, or not) or after it.  Whatever the order, the node ends on the trusted peer's tip: an
+// in-sync node does not poll and has no request left to time out, so nothing else would recover it.
+func VerifHarness_C12_insync() {
+	ctx := context.Background()
+	k, err := vkNewNode(ctx, nil)
+	verifrt.Assert(err == nil, "C12.kit.node-loads")
+	k.node.state.SetVersionReceived()
+	k.node.state.MarkConnected()
+	tree := vkNewTree(*k.node.blocks.LastHash())
+	tree.add("a1", "", nil)
+	tree.add("a2", "a1", nil)
+	tree.add("a3", "a2", []*wire.MsgTx{vkTx(1, []int{0}, true)})
+	w := &c01World{ctx: ctx, k: k, tree: tree, heard: map[string]bool{}}
+	w.peer = vkNewPeer(tree, "a2")
+	w.settle(4)
+	verifrt.Assert(w.converged() && k.node.state.IsReady(), "C12.insync.settled-in-sync")
+	w.peer.setBest("a3")
+	w.deliver() // the announcement; the node asks for the body
+	verifrt.Assert(k.node.state.TotalBlockRequestCount() == 1, "C12.insync.block-requested")
+
+	u := vkUntrusted(ctx, k, "peer1", verifrt.Choose("untrusted.verified", 2) == 1)
+	u.outgoing.Open(100)
+	altered := &wire.MsgBlock{Header: tree.blocks["a3"].Header}
+	for _, tx := range tree.blocks["a3"].Transactions {
+		altered.AddTransaction(tx)
+	}
+	altered.AddTransaction(vkTx(66, []int{5}, true))
+	order := verifrt.Choose("altered-body", 3)
+	switch order {
+	case 0: // arrives first and is processed before the trusted body arrives
+		u.handleMessage(ctx, altered)
+		w.process()
+		w.deliver()
+	case 1: // arrives first, the trusted body follows before the block processor runs
+		u.handleMessage(ctx, altered)
+		w.deliver()
+	case 2: // arrives after the trusted body, before the block processor runs
+		w.deliver()
+		u.handleMessage(ctx, altered)
+	}
+	w.settle(5)
+	vkChainLinked(ctx, k.node, "closure")
+	verifrt.Note("closure: node height %d tip %s ready=%v", k.node.blocks.LastHeight(), tree.byHash[*k.node.blocks.LastHash()], k.node.state.IsReady())
+	verifrt.Sig("insync", order, "stall")
+	verifrt.Assert(w.converged(), "C12.no-stall.trusted-sync-still-converges")
+	for _, e := range k.rec.events {
+		if e.kind == "tx" || e.kind == "update" {
+			verifrt.Sig("insync", order, "foreign-tx")
+			verifrt.Assert(e.txid == *tree.blocks["a3"].Transactions[1].TxHash(), "C12.insync.only-the-real-block's-transactions-delivered")
+		}
+	}
+	verifrt.Reach("C12.insync.done")
 }
